@@ -24,6 +24,8 @@ type c13Obs struct {
 	hSender   []bool
 	nested    func()
 	depth     int
+	nestInMW  bool // the other client's request arrives while this one is still in the middleware
+	mwDepth   int
 }
 
 func (o *c13Obs) f1(ctx context.Context, r *http.Request) context.Context {
@@ -38,6 +40,10 @@ func (o *c13Obs) f2(ctx context.Context, r *http.Request) context.Context {
 func (o *c13Obs) mw(next HandlerFunc) HandlerFunc {
 	return func(ctx context.Context, req *JSONRPCRequest) (JSONRPCMessage, error) {
 		o.mwTok = append(o.mwTok, ctx.Value(c13K1{}))
+		o.mwDepth++
+		if o.nestInMW && o.mwDepth == 1 && o.nested != nil {
+			o.nested()
+		}
 		return next(ctx, req)
 	}
 }
@@ -52,7 +58,7 @@ func (o *c13Obs) handler(ctx context.Context, r *CallToolRequest) (*CallToolResu
 	_, hasSender := GetNotificationSender(ctx)
 	o.hSender = append(o.hSender, hasSender)
 	o.depth++
-	if o.depth == 1 && o.nested != nil {
+	if !o.nestInMW && o.depth == 1 && o.nested != nil {
 		o.nested() // another client's request is served while this one is in flight
 		o.hAfter = append(o.hAfter, ctx.Value(c13K1{}))
 	}
@@ -93,7 +99,7 @@ func H_C13_streamable() {
 	vRandConcrete(true)
 	stateful := vBool("stateful")
 	a, b := c13Tokens()
-	o := &c13Obs{}
+	o := &c13Obs{nestInMW: vBool("overlapInMiddleware")}
 	filter := func(ctx context.Context, tools []*Tool) []*Tool {
 		o.filterTok = append(o.filterTok, ctx.Value(c13K1{}))
 		tok, _ := ctx.Value(c13K1{}).(string)
@@ -127,6 +133,7 @@ func H_C13_streamable() {
 		}
 		vAssume(sa != "" && sb != "" && sa != sb)
 		o.order, o.mwTok = nil, nil
+		o.mwDepth = 0
 	}
 	call := []byte(`{"jsonrpc":"2.0","id":1,"method":"tools/call","params":{"name":"t","arguments":{}}}`)
 	list := []byte(`{"jsonrpc":"2.0","id":2,"method":"tools/list"}`)
@@ -139,18 +146,26 @@ func H_C13_streamable() {
 	vAssert("both-answered", vAnd(recA.code() == 200, recB.code() == 200))
 	vAssert("two-handler-runs", len(o.hTok) == 2)
 	if len(o.hTok) == 2 {
-		vAssert("outer-handler-own-token", o.hTok[0] == a)
-		vAssert("inner-handler-own-token", o.hTok[1] == b)
-		vAssert("outer-handler-own-derived-value", o.hTok2[0] == a+"!")
-		vAssert("inner-handler-own-derived-value", o.hTok2[1] == b+"!")
-		vAssert("outer-context-unchanged-after-inner-request", vAnd(len(o.hAfter) == 1, o.hAfter[0] == a))
+		// when the overlap happens in the middleware the other client's handler runs first
+		ia, ib := 0, 1
+		if o.nestInMW {
+			ia, ib = 1, 0
+		}
+		vAssert("outer-handler-own-token", o.hTok[ia] == a)
+		vAssert("inner-handler-own-token", o.hTok[ib] == b)
+		vAssert("outer-handler-own-derived-value", o.hTok2[ia] == a+"!")
+		vAssert("inner-handler-own-derived-value", o.hTok2[ib] == b+"!")
+		if !o.nestInMW {
+			vAssert("outer-context-unchanged-after-inner-request", vAnd(len(o.hAfter) == 1, o.hAfter[0] == a))
+		}
 		vAssert("handlers-have-sender", vAnd(o.hSender[0], o.hSender[1]))
 		if stateful {
-			vAssert("outer-handler-own-session", o.hSess[0] == sa)
-			vAssert("inner-handler-own-session", o.hSess[1] == sb)
+			vAssert("outer-handler-own-session", o.hSess[ia] == sa)
+			vAssert("inner-handler-own-session", o.hSess[ib] == sb)
 		}
 	}
 	vAssert("context-funcs-in-registration-order", vAnd(len(o.order) == 4, strings.Join(o.order, ",") == "f1,f2,f1,f2"))
+	o.nestInMW = false
 	vAssert("middleware-own-tokens", vAnd(len(o.mwTok) == 2, vAnd(o.mwTok[0] == a, o.mwTok[1] == b)))
 	// list filters are evaluated per request
 	o.nested = nil
